@@ -420,6 +420,13 @@ func (m *Merged) report(wall float64) int {
 		return fresh[i].Key < fresh[j].Key
 	})
 
+	// cases that killed or hung their worker were executed too
+	if n := int64(len(m.Violations)); m.Evaluations < n {
+		m.Evaluations = n
+	}
+	if m.Distinct < m.Evaluations && m.Distinct == 0 {
+		m.Distinct = m.Evaluations
+	}
 	exhaustive := !m.DeadlineHit && len(m.CapsHit) == 0
 	cov := map[string]any{
 		"evaluations":                   m.Evaluations,
